@@ -70,7 +70,10 @@ def expr_ops(s):
              W._f('state', 'SUCCESS'))
         both("tasks('%s', true, 'SUCCESS', true)" % a['wf_ex'],
              'wf_ex=A,recursive,state,flat', own, 'many',
-             W._f('workflow_execution_id', a['wf_ex']))
+             lambda s_, pre: W.rows(
+                 pre, s.table,
+                 lambda r: r['workflow_execution_id'] == a['wf_ex']
+                 and r['state'] == 'SUCCESS'))
         cur = {'__execution': {'id': a['wf_ex']},
                '__task_execution': {'id': rid, 'name': W.NAME}}
         both('task()', 'ctx=A', cur, 'one', W._by_id)
@@ -121,6 +124,7 @@ def run_expr_op(s, op, who):
         body()
     except (mexc.MistralException, mexc.MistralError) as e:
         obs['exc'] = type(e).__name__
+        obs['err'] = str(e)[:300]
     except Exception as e:  # noqa
         obs['exc'] = 'OTHER:' + type(e).__name__
         obs['err'] = str(e)[:300]
@@ -133,7 +137,10 @@ def run_expr_op(s, op, who):
     post = M.dump(env.raw_conn())
     pre = s.pre
     required = op.sel(s, pre) if op.sel else None
-    if obs['exc'] and obs['exc'].startswith('OTHER'):
+    # an evaluation error says something about readability only if it is
+    # the 'not found' of a single-row lookup
+    if obs['exc'] and not (op.mode == 'one' and not obs['exc'].startswith(
+            'OTHER') and 'not found' in obs.get('err', '')):
         required = None
     br = M.judge(pre, post, caller, returned_ids=obs['ids'],
                  leaked_marks=marks, required=required, mode=op.mode,
